@@ -6,7 +6,26 @@ import glob
 import json
 import os
 import shutil
+import subprocess
 import sys
+import tempfile
+
+BASES = ['HEAD', '9f11385', '781a972', '0d76953', '1151be2', 'd4c991b']
+_WT = {}
+
+
+def applies_to(patch):
+    """the newest /repo commit (of the fix: commits made during the build) to which the patch applies as it is"""
+    for b in BASES:
+        if b not in _WT:
+            wt = tempfile.mkdtemp(prefix='collect_wt_', dir='/tmp')
+            os.rmdir(wt)
+            subprocess.run(['git', '-C', '/repo', 'worktree', 'add', '-q', '--detach', wt, b], check=True)
+            _WT[b] = wt
+        r = subprocess.run(['git', '-C', _WT[b], 'apply', '--check', patch], stdout=subprocess.PIPE, stderr=subprocess.STDOUT)
+        if r.returncode == 0:
+            return subprocess.check_output(['git', '-C', _WT[b], 'rev-parse', '--short', 'HEAD']).decode().strip(), b == 'HEAD'
+    return None, False
 
 ROOT = os.path.dirname(os.path.dirname(os.path.abspath(__file__)))
 DEST = os.path.join(ROOT, 'seeded')
@@ -45,7 +64,11 @@ def main():
                 if e.get('rebased') and os.path.exists(os.path.join(d, 'patch.rebased.diff')):
                     shutil.copy(os.path.join(d, 'patch.diff'), os.path.join(out, 'patch.original.diff'))
                     shutil.copy(os.path.join(d, 'patch.rebased.diff'), os.path.join(out, 'patch.diff'))
+                base, at_head = applies_to(os.path.join(out, 'patch.diff'))
                 meta_out = {
+                    'applies_to': base, 'applies_to_current_head': at_head,
+                    'note_on_base': None if at_head else 'the patch overlaps lines repaired by a later fix: commit of this build; it applies to the commit named in '
+                                                         'applies_to and was evaluated there (with the checks of that time); it was not rebased',
                     'property': target, 'summary': meta.get('summary', ''), 'needs': meta.get('needs', ''),
                     'origin': ('behaviour-preserving refactoring written by a sub-agent (equiv.py = its old-versus-new comparison)' if prefix.startswith('neutral') and meta else
                                'written by a sub-agent that saw only the property text and its own worktree' if meta else
@@ -77,6 +100,8 @@ def main():
                 hit = 'TARGET HIT' if target in inp else ('target broken' if target in brk else 'TARGET MISSED')
             f.write('| %s | %s (%s) | %s | %s | %s | %s |\n' % (name, target, hit, 'yes' if confirmed else 'NO', ' '.join(inp) or '-',
                                                               ' '.join(brk) or '-', summ.replace('|', '/')[:160]))
+    for wt in _WT.values():
+        subprocess.run(['git', '-C', '/repo', 'worktree', 'remove', '--force', wt])
     print('wrote %d rows' % len(rows))
 
 
